@@ -188,9 +188,17 @@ func (e *escaper) escapeAction(c context, n *parse.ActionNode) context {
 			err:   errorf(ErrEscapeAction, n, n.Line, "cannot escape action %v: a tag name before it is split over several text nodes", n),
 		}
 	}
+	if c.state == stateAttr && c.element.name == "link" && c.attr.name == "rel" && c.linkRel == "" {
+		// Part of the rel value is only known at run time.
+		c.linkRel = unknownLinkRel
+	}
 	e.editActionNode(n, s)
 	return c
 }
+
+// unknownLinkRel is the linkRel of a link element whose rel attribute value is not fully
+// determined by the template text. It contains a token that is not URL-compatible.
+const unknownLinkRel = " \x00 "
 
 // ensurePipelineContains ensures that the pipeline ends with the commands with
 // the identifiers in s in order. If the pipeline ends with a predefined escaper
@@ -812,7 +820,11 @@ func contextAfterText(c context, s []byte) (context, int) {
 	}
 	// Save the link element's rel attribute value if we are parsing it for the first time.
 	if c.state == stateAttr && c.element.name == "link" && c.attr.name == "rel" && c.linkRel == "" {
-		ret.linkRel = " " + strings.Join(strings.Fields(strings.TrimSpace(strings.ToLower(string(s[:i])))), " ") + " "
+		// c.attr.value holds the static text of the value that precedes this text node.
+		ret.linkRel = " " + strings.Join(strings.Fields(strings.TrimSpace(strings.ToLower(c.attr.value+string(s[:i])))), " ") + " "
+		if c.attr.ambiguousValue {
+			ret.linkRel = unknownLinkRel
+		}
 	}
 	if c.delim != delimSpaceOrTagEnd {
 		// Consume any quote.
